@@ -2,7 +2,10 @@ pub mod c01;
 pub mod c02;
 pub mod c03;
 pub mod c04;
+pub mod c05;
+pub mod c06;
 pub mod c08;
+pub mod c11;
 pub mod c12;
 pub mod c13;
 pub mod c16;
@@ -18,7 +21,10 @@ pub fn run(prop: &str, tier: Tier) -> i32 {
         "C02" => c02::run(tier),
         "C03" => c03::run(tier),
         "C04" => c04::run(tier),
+        "C05" => c05::run(tier),
+        "C06" => c06::run(tier),
         "C08" => c08::run(tier),
+        "C11" => c11::run(tier),
         "C12" => c12::run(tier),
         "C13" => c13::run(tier),
         "C16" => c16::run(tier),
@@ -37,7 +43,10 @@ pub fn replay(prop: &str, case: &Value) -> Vec<String> {
         "C02" => c02::replay(case),
         "C03" => c03::replay(case),
         "C04" => c04::replay(case),
+        "C05" => c05::replay(case),
+        "C06" => c06::replay(case),
         "C08" => c08::replay("C08", case),
+        "C11" => c11::replay(case),
         "C12" => c12::replay(case),
         "C13" => c13::replay(case),
         "C16" => c16::replay(case),
